@@ -93,11 +93,13 @@ func init() {
   uses i:g3;
   augment "/c" { leaf aug1 { type string; } }
   augment "/c/impy" { leaf aug2 { type string; } }
+  augment "/c/impch" { case augca { leaf augc1 { type string; } } }
   augment "/sc" { leaf aug3 { type string; } }
 }`
 	SchemaFiles["multi"] = map[string]string{
 		"mimp": `module mimp { namespace "urn:mimp"; prefix mimp; revision 0;
-  grouping g { leaf impx { type string; } container impy { leaf impz { type string; } } }
+  grouping g { leaf impx { type string; } container impy { leaf impz { type string; } }
+    choice impch { case impca { leaf impc1 { type string; } } leaf impc2 { type string; } } }
   grouping g2 { leaf imp2 { type string; } }
   grouping g3 { container imptop { leaf impt { type string; } list impl { key impk; leaf impk { type string; } leaf impv { type string; } } } }
 }`,
